@@ -84,6 +84,132 @@ RunesFrom(s, i) == IF i > Len(s) THEN <<>>
                            ELSE <<SubSeq(s, i, i + n - 1)>> \o RunesFrom(s, i + n)
 Runes(s) == RunesFrom(s, 1)      \* what `for c in s` yields: one string per character
 
+
+(* ------------------- string forms and string builtins ------------------- *)
+\* decimal digits of a natural number (BigNat), most significant first, as bytes
+RECURSIVE BnDecDigits(_)
+BnDecDigits(a) == IF a = <<>> THEN <<>>
+                  ELSE LET qr == BnDivModSmall(a, 10) IN BnDecDigits(qr[1]) \o <<48 + qr[2]>>
+DecStr(i) == IF i.mag = <<>> THEN <<48>> ELSE (IF i.neg THEN <<45>> ELSE <<>>) \o BnDecDigits(i.mag)
+RECURSIVE Pow5(_)
+Pow5(n) == IF n = 0 THEN <<1>> ELSE BnMulSmall(Pow5(n - 1), 5)
+RECURSIVE PadLeft(_, _)
+PadLeft(s, n) == IF Len(s) >= n THEN s ELSE PadLeft(<<48>> \o s, n)
+\* shortest decimal form of a double, defined for integral values below 2^53 and for dyadic fractions with
+\* at most 4 binary places (their exact expansion is also the shortest one); otherwise unspecified
+FloatStr(f) ==
+  IF f.c # "fin" THEN [ok |-> FALSE, s |-> <<>>]
+  ELSE IF f.man = <<>> THEN [ok |-> TRUE, s |-> (IF f.neg THEN <<45, 48>> ELSE <<48>>)]
+  ELSE IF f.exp >= 0 /\ BnBitLen(f.man) + f.exp <= 53
+    THEN [ok |-> TRUE, s |-> (IF f.neg THEN <<45>> ELSE <<>>) \o BnDecDigits(BnShl(f.man, f.exp))]
+  ELSE IF f.exp < 0 /\ f.exp >= -4 /\ BnBitLen(f.man) <= 40
+    THEN LET k == 0 - f.exp
+             ds == PadLeft(BnDecDigits(BnMul(f.man, Pow5(k))), k + 1)
+         IN [ok |-> TRUE, s |-> (IF f.neg THEN <<45>> ELSE <<>>) \o SubSeq(ds, 1, Len(ds) - k) \o <<46>> \o SubSeq(ds, Len(ds) - k + 1, Len(ds))]
+  ELSE [ok |-> FALSE, s |-> <<>>]
+TRUEs == <<116, 114, 117, 101>>
+FALSEs == <<102, 97, 108, 115, 101>>
+\* Conv2String: the string form builtins work on; lists and maps (JSON text) are left unspecified
+ToStrV(v) ==
+  CASE v.t = "str" -> [ok |-> TRUE, s |-> v.s]
+    [] v.t = "int" -> [ok |-> TRUE, s |-> DecStr(v.i)]
+    [] v.t = "bool" -> [ok |-> TRUE, s |-> IF v.b THEN TRUEs ELSE FALSEs]
+    [] v.t \in {"nil", "void"} -> [ok |-> TRUE, s |-> <<>>]
+    [] v.t = "float" -> FloatStr(v.f)
+    [] OTHER -> [ok |-> FALSE, s |-> <<>>]
+
+IsSpaceB(b) == b \in {32, 9, 10, 11, 12, 13}
+RECURSIVE TrimL(_, _), TrimR(_, _)
+TrimL(s, set) == IF s # <<>> /\ s[1] \in set THEN TrimL(Tail(s), set) ELSE s
+TrimR(s, set) == IF s # <<>> /\ s[Len(s)] \in set THEN TrimR(SubSeq(s, 1, Len(s) - 1), set) ELSE s
+TrimSet(s, set) == TrimR(TrimL(s, set), set)
+SpaceSet == {32, 9, 10, 11, 12, 13}
+BytesOf(s) == {s[i] : i \in 1..Len(s)}
+Upper(s) == [i \in 1..Len(s) |-> IF s[i] >= 97 /\ s[i] <= 122 THEN s[i] - 32 ELSE s[i]]
+IsAscii(s) == \A i \in 1..Len(s) : s[i] < 128
+HexV(b) == IF b >= 48 /\ b <= 57 THEN b - 48 ELSE IF b >= 97 /\ b <= 102 THEN b - 87 ELSE IF b >= 65 /\ b <= 70 THEN b - 55 ELSE -1
+RECURSIVE UrlDec(_, _, _)
+\* url.QueryUnescape: %XX and '+'; a malformed escape is an error
+UrlDec(s, i, out) ==
+  IF i > Len(s) THEN [ok |-> TRUE, s |-> out]
+  ELSE IF s[i] = 43 THEN UrlDec(s, i + 1, Append(out, 32))
+  ELSE IF s[i] # 37 THEN UrlDec(s, i + 1, Append(out, s[i]))
+  ELSE IF i + 2 > Len(s) \/ HexV(s[i + 1]) < 0 \/ HexV(s[i + 2]) < 0 THEN [ok |-> FALSE, s |-> <<>>]
+  ELSE UrlDec(s, i + 3, Append(out, 16 * HexV(s[i + 1]) + HexV(s[i + 2])))
+
+\* fmt.Sprintf restricted to %s %d %v %% on strings, integers, booleans and nil (%v of nil is "<nil>")
+VerbStr(verb, v) ==
+  CASE verb = 115 /\ v.t = "str" -> [ok |-> TRUE, s |-> v.s]                          \* %s
+    [] verb = 100 /\ v.t = "int" -> [ok |-> TRUE, s |-> DecStr(v.i)]                  \* %d
+    [] verb = 118 /\ v.t \in {"str", "int", "bool"} -> ToStrV(v)                      \* %v
+    [] verb = 118 /\ v.t \in {"nil", "void"} -> [ok |-> TRUE, s |-> <<60, 110, 105, 108, 62>>]
+    [] verb = 118 /\ v.t = "float" -> FloatStr(v.f)
+    [] OTHER -> [ok |-> FALSE, s |-> <<>>]
+RECURSIVE Sprintf(_, _, _, _, _)
+Sprintf(f, i, args, a, out) ==
+  IF i > Len(f) THEN [ok |-> a > Len(args), s |-> out]           \* surplus arguments are not modelled
+  ELSE IF f[i] # 37 THEN Sprintf(f, i + 1, args, a, Append(out, f[i]))
+  ELSE IF i + 1 > Len(f) THEN [ok |-> FALSE, s |-> out]
+  ELSE IF f[i + 1] = 37 THEN Sprintf(f, i + 2, args, a, Append(out, 37))
+  ELSE IF a > Len(args) THEN [ok |-> FALSE, s |-> out]
+  ELSE LET x == VerbStr(f[i + 1], args[a])
+       IN IF ~x.ok THEN [ok |-> FALSE, s |-> out] ELSE Sprintf(f, i + 2, args, a + 1, out \o x.s)
+
+\* catalogs: engines that are not modelled are represented by finite tables that are part of the specification;
+\* the harness checks every entry against the engine itself (a wrong entry is a framework error, never a verdict)
+JsonCatalog ==     \* text -> [ok, deep value]
+  << [t |-> <<49>>, ok |-> TRUE, d |-> [t |-> "float", f |-> FFin(FALSE, <<1>>, 0)]],                                  \* 1
+     [t |-> <<34, 115, 34>>, ok |-> TRUE, d |-> [t |-> "str", s |-> <<115>>]],                                         \* "s"
+     [t |-> <<91, 49, 44, 34, 97, 34, 44, 110, 117, 108, 108, 93>>, ok |-> TRUE,                                      \* [1,"a",null]
+      d |-> [t |-> "list", e |-> <<[t |-> "float", f |-> FFin(FALSE, <<1>>, 0)], [t |-> "str", s |-> <<97>>], [t |-> "nil"]>>]],
+     [t |-> <<123, 34, 97, 34, 58, 123, 34, 98, 34, 58, 91, 116, 114, 117, 101, 93, 125, 125>>, ok |-> TRUE,          \* {"a":{"b":[true]}}
+      d |-> [t |-> "map", ks |-> <<<<97>>>>, vs |-> <<[t |-> "map", ks |-> <<<<98>>>>,
+                                                    vs |-> <<[t |-> "list", e |-> <<[t |-> "bool", b |-> TRUE]>>]>>]>>]],
+     [t |-> <<110, 117, 108, 108>>, ok |-> TRUE, d |-> [t |-> "nil"]],                                                \* null
+     [t |-> <<116, 114, 117, 101>>, ok |-> TRUE, d |-> [t |-> "bool", b |-> TRUE]],                                    \* true
+     [t |-> <<110, 117, 108>>, ok |-> FALSE, d |-> [t |-> "nil"]],                                                     \* nul
+     [t |-> <<>>, ok |-> FALSE, d |-> [t |-> "nil"]],                                                                  \* (empty)
+     [t |-> <<123>>, ok |-> FALSE, d |-> [t |-> "nil"]],                                                               \* {
+     [t |-> <<91, 49, 44, 93>>, ok |-> FALSE, d |-> [t |-> "nil"]] >>                                                  \* [1,]
+JsonLookup(txt) == LET S == {i \in 1..Len(JsonCatalog) : JsonCatalog[i].t = txt}
+                   IN IF S = {} THEN [known |-> FALSE] ELSE [known |-> TRUE, e |-> JsonCatalog[CHOOSE i \in S : TRUE]]
+RegexCatalog ==    \* (pattern, subject, replacement) -> result; pattern validity
+  << [p |-> <<97, 43>>, s |-> <<99, 97, 97, 116>>, r |-> <<88>>, ok |-> TRUE, out |-> <<99, 88, 116>>],                       \* a+ / caat / X
+     [p |-> <<97, 43>>, s |-> <<120, 121>>, r |-> <<88>>, ok |-> TRUE, out |-> <<120, 121>>],                                 \* no match
+     [p |-> <<97, 43>>, s |-> <<>>, r |-> <<88>>, ok |-> TRUE, out |-> <<>>],
+     [p |-> <<40, 92, 100, 43, 41, 45, 40, 92, 100, 43, 41>>, s |-> <<49, 50, 45, 51, 52>>, r |-> <<36, 50, 45, 36, 49>>,
+      ok |-> TRUE, out |-> <<51, 52, 45, 49, 50>>],                                                                           \* (\d+)-(\d+) / 12-34 / $2-$1
+     [p |-> <<97, 43>>, s |-> <<55>>, r |-> <<88>>, ok |-> TRUE, out |-> <<55>>],                                             \* subject "7" (an int's string form)
+     [p |-> <<40>>, s |-> <<99, 97, 97, 116>>, r |-> <<88>>, ok |-> FALSE, out |-> <<>>],                                     \* ( : bad pattern
+     [p |-> <<40>>, s |-> <<>>, r |-> <<88>>, ok |-> FALSE, out |-> <<>>] >>
+RegexLookup(p, subj, r) == LET S == {i \in 1..Len(RegexCatalog) : RegexCatalog[i].p = p /\ RegexCatalog[i].s = subj /\ RegexCatalog[i].r = r}
+                           IN IF S = {} THEN [known |-> FALSE] ELSE [known |-> TRUE, e |-> RegexCatalog[CHOOSE i \in S : TRUE]]
+RegexBad(p) == \E i \in 1..Len(RegexCatalog) : RegexCatalog[i].p = p /\ ~RegexCatalog[i].ok
+
+\* numeric reading of a string for cast (strconv.ParseFloat semantics on the catalogued spellings; others read as 0)
+StrNum(s) == CASE s = <<49, 50>> -> FFin(FALSE, <<3>>, 2)          \* "12"
+               [] s = <<49, 46, 53>> -> FFin(FALSE, <<3>>, -1)      \* "1.5"
+               [] s = <<55>> -> FFin(FALSE, <<7>>, 0)               \* "7"
+               [] s = <<45, 51>> -> FFin(TRUE, <<3>>, 0)            \* "-3"
+               [] s = <<48>> -> FZero(FALSE)
+               [] OTHER -> FZero(FALSE)
+StrNumKnown(s) == s \in {<<49, 50>>, <<49, 46, 53>>, <<55>>, <<45, 51>>, <<48>>, <<>>, <<120>>, <<116, 114, 117, 101>>, <<97, 98>>}
+\* float -> int64 by truncation (only values below 2^53 are used)
+FTrunc(f) == IF f.c # "fin" \/ f.man = <<>> THEN IZero
+             ELSE IF f.exp >= 0 THEN IMk(f.neg, BnShl(f.man, f.exp)) ELSE IMk(f.neg, BnShr(f.man, 0 - f.exp))
+ParseBoolTrue == {<<49>>, <<116>>, <<84>>, <<84, 82, 85, 69>>, <<116, 114, 117, 101>>, <<84, 114, 117, 101>>}
+\* doCast: the documented conversion of a value to "bool" | "int" | "float" | "str" ("string" is an alias of "str")
+CastV(v, T) ==
+  LET num == CASE v.t = "int" -> FFromI64(v.i) [] v.t = "float" -> v.f [] v.t = "bool" -> FFromBool(v.b)
+               [] v.t = "str" -> StrNum(v.s) [] OTHER -> FZero(FALSE)
+  IN CASE T = "int" -> [ok |-> (v.t = "str" => StrNumKnown(v.s)), v |-> (IF v.t = "int" THEN v ELSE VInt(FTrunc(num)))]
+       [] T = "float" -> [ok |-> (v.t = "str" => StrNumKnown(v.s)), v |-> VFloat(num)]
+       [] T \in {"str", "string"} -> (LET x == ToStrV(v) IN [ok |-> x.ok, v |-> VStr(x.s)])
+       [] T = "bool" -> [ok |-> TRUE, v |-> VBool(CASE v.t = "bool" -> v.b [] v.t = "int" -> ~IIsZero(v.i)
+                                                    [] v.t = "float" -> ~FIsZero(v.f) [] v.t = "str" -> v.s \in ParseBoolTrue
+                                                    [] OTHER -> FALSE)]
+       [] OTHER -> [ok |-> FALSE, v |-> VNil]
+
 (* ----------------------------- operators -------------------------------- *)
 Ok(v) == [ok |-> TRUE, v |-> v]
 Bad(c) == [ok |-> FALSE, v |-> VNil, cls |-> c]
@@ -207,7 +333,22 @@ PtSetField(pt, k, sv) ==
   LET i == PtFind(pt, k)
   IN IF i = 0 THEN [pt EXCEPT !.ks = Append(@, k), !.es = Append(@, [flag |-> "field", v |-> sv])]
      ELSE IF pt.es[i].flag = "field" THEN [pt EXCEPT !.es[i].v = sv]
-     ELSE [pt EXCEPT !.es[i].v = [t |-> "tagstr", of |-> sv]]    \* a tag keeps being a tag: the value's string form
+     ELSE LET x == IF sv.t = "json" THEN [ok |-> FALSE, s |-> <<>>] ELSE ToStrV(sv)     \* a tag keeps being a tag
+          IN [pt EXCEPT !.es[i].v = IF x.ok THEN VStr(x.s) ELSE [t |-> "tagstr", of |-> sv]]
+\* Point.SetTag: create the key as a tag or move it to the tags, with the value's string form
+PtSetTag(pt, k, sv) ==
+  LET x == IF sv.t = "json" THEN [ok |-> FALSE, s |-> <<>>] ELSE ToStrV(sv)
+      tv == IF x.ok THEN VStr(x.s) ELSE [t |-> "tagstr", of |-> sv]
+      i == PtFind(pt, k)
+  IN IF i = 0 THEN [pt EXCEPT !.ks = Append(@, k), !.es = Append(@, [flag |-> "tag", v |-> tv])]
+     ELSE [pt EXCEPT !.es[i] = [flag |-> "tag", v |-> tv]]
+\* rename(to, from): the key moves with its kind and value; an existing destination is replaced
+PtRename(pt, to, from) ==
+  LET i == PtFind(pt, from)
+  IN IF to = from \/ i = 0 THEN pt
+     ELSE LET e == pt.es[i]
+              p1 == PtDel(PtDel(pt, from), to)
+          IN [p1 EXCEPT !.ks = Append(@, to), !.es = Append(@, e)]
 StoredForm(h, v) == IF v.t = "ref" THEN [t |-> "json", d |-> DeepV(h, v)]
                     ELSE IF v.t = "void" THEN VNil ELSE v
 
@@ -231,6 +372,17 @@ R(st, v) == [st |-> st, ok |-> TRUE, v |-> v, cls |-> ""]
 E(st, c) == [st |-> st, ok |-> FALSE, v |-> VNil, cls |-> c]
 Lift(st, r) == IF r.ok THEN R(st, r.v) ELSE E(st, r.cls)
 
+\* allocate a deep value (catalog result) on the heap
+RECURSIVE FromDeep(_, _), FromDeepSeq(_, _, _, _)
+FromDeepSeq(ds, i, st, acc) == IF i > Len(ds) THEN [st |-> st, vs |-> acc]
+                               ELSE LET r == FromDeep(ds[i], st) IN FromDeepSeq(ds, i + 1, r.st, Append(acc, r.v))
+FromDeep(d, st) ==
+  IF d.t = "list" THEN LET r == FromDeepSeq(d.e, 1, st, <<>>)
+                       IN [st |-> [r.st EXCEPT !.heap = Append(@, HList(r.vs))], v |-> VRef(Len(r.st.heap) + 1)]
+  ELSE IF d.t = "map" THEN LET r == FromDeepSeq(d.vs, 1, st, <<>>)
+                           IN [st |-> [r.st EXCEPT !.heap = Append(@, HMap(d.ks, r.vs))], v |-> VRef(Len(r.st.heap) + 1)]
+  ELSE [st |-> st, v |-> d]
+
 Alloc(st, obj) == [st |-> [st EXCEPT !.heap = Append(@, obj)], l |-> Len(st.heap) + 1]
 
 \* a value used as an operand / element / condition: in v2 "no value" and multi-values are errors
@@ -241,6 +393,7 @@ Use1(st, r) == IF ~r.ok THEN r
 
 KeyNameOf(e) == CASE e.k = "id" -> [ok |-> TRUE, n |-> e.n]
                   [] e.k = "str" -> [ok |-> TRUE, n |-> e.name]     \* astconv adds the ASCII text of string literals
+                  [] e.k = "attr" -> [ok |-> TRUE, n |-> e.text]
                   [] OTHER -> [ok |-> FALSE, n |-> ""]
 
 (* ------------------------------ evaluation ------------------------------ *)
@@ -458,7 +611,7 @@ EvalCall(e, st) ==
            (LET kn == KeyNameOf(e.as[1]) IN
             IF Len(e.as) = 1
               THEN (LET g == GetKey(st, kn.n) IN
-                    IF ~g.found THEN R(st, VVoid)
+                    IF ~g.found THEN R([st EXCEPT !.log = Append(@, [ev |-> "add_key", k |-> Alias(kn.n)])], VVoid)
                     ELSE R([st EXCEPT !.pt = PtSetField(@, Alias(kn.n), StoredForm(st.heap, g.v)),
                                       !.log = Append(@, [ev |-> "add_key", k |-> Alias(kn.n)])], VVoid))
               ELSE (LET r == Eval(e.as[2], st) IN
@@ -472,5 +625,85 @@ EvalCall(e, st) ==
            (LET kn == KeyNameOf(e.as[1])
                 p == PtGet(st.pt, Alias(kn.n)) IN
             IF p.found /\ p.v.t \in {"json", "tagstr"} THEN E(st, "unspec-read") ELSE R(st, p.v))
+      [] e.f = "set_tag" ->
+           (LET kn == KeyNameOf(e.as[1]) IN
+            IF Len(e.as) = 2
+              THEN (LET r == Eval(e.as[2], st) IN
+                    IF ~r.ok THEN r
+                    ELSE R([r.st EXCEPT !.pt = PtSetTag(@, Alias(kn.n), StoredForm(r.st.heap, r.v)),
+                                        !.log = Append(@, [ev |-> "call", k |-> "set_tag"])], VVoid))
+              ELSE (LET g == GetKey(st, kn.n) IN
+                    R([st EXCEPT !.pt = PtSetTag(@, Alias(kn.n), IF g.found THEN StoredForm(st.heap, g.v) ELSE VStr(<<>>)),
+                                 !.log = Append(@, [ev |-> "call", k |-> "set_tag"])], VVoid)))
+      [] e.f = "rename" ->
+           R([st EXCEPT !.pt = PtRename(@, Alias(KeyNameOf(e.as[1]).n), Alias(KeyNameOf(e.as[2]).n)),
+                        !.log = Append(@, [ev |-> "call", k |-> "rename"])], VVoid)
+      [] e.f = "cast" ->
+           (LET kn == KeyNameOf(e.as[1])
+                g == GetKey(st, kn.n) IN
+            IF ~g.found THEN R([st EXCEPT !.log = Append(@, [ev |-> "call", k |-> "cast"])], VVoid)
+            ELSE IF g.v.t \in {"ref", "json", "tagstr"} THEN E(st, "unspec-cast")
+            ELSE LET c == CastV(g.v, e.as[2].name) IN
+                 IF ~c.ok THEN E(st, "unspec-cast")
+                 ELSE R([st EXCEPT !.pt = PtSetField(@, Alias(kn.n), c.v), !.log = Append(@, [ev |-> "call", k |-> "cast"])], VVoid))
+      [] e.f = "set_measurement" ->
+           (LET r == Eval(e.as[1], st)                     \* the first argument is evaluated as an expression
+                st1 == IF r.ok THEN r.st ELSE st
+                st2 == IF r.ok /\ r.v.t = "str" /\ IsAscii(r.v.s) THEN [st1 EXCEPT !.pt.meas = r.v.s] ELSE st1
+                del == Len(e.as) = 2 /\ e.as[2].k = "bool" /\ e.as[2].b /\ e.as[1].k \in {"id", "attr"}
+                st3 == IF r.ok /\ del THEN [st2 EXCEPT !.pt = PtDel(@, Alias(KeyNameOf(e.as[1]).n))] ELSE st2
+            IN IF r.ok /\ r.v.t = "str" /\ ~IsAscii(r.v.s) THEN E(st, "unspec-measurement")
+               ELSE R([st3 EXCEPT !.log = Append(@, [ev |-> "call", k |-> "set_measurement"])], VVoid))
+      [] e.f \in {"trim", "uppercase", "url_decode", "replace"} ->
+           (LET kn == KeyNameOf(e.as[1])
+                g == GetKey(st, kn.n)
+                lg == [st EXCEPT !.log = Append(@, [ev |-> "call", k |-> e.f])] IN
+            IF e.f = "replace" /\ RegexBad(e.as[2].s) THEN E(st, "bad-regexp")       \* compiled before the subject is read
+            ELSE IF ~g.found THEN R(lg, VVoid)
+            ELSE IF g.v.t \in {"json", "tagstr"} THEN E(st, "unspec-subject")
+            ELSE LET x == IF g.v.t = "ref" THEN [ok |-> FALSE, s |-> <<>>] ELSE ToStrV(g.v) IN
+                 IF ~x.ok THEN E(st, "unspec-subject")
+                 ELSE LET res ==
+                        CASE e.f = "trim" -> [ok |-> TRUE, known |-> TRUE,
+                                              s |-> IF Len(e.as) = 2 /\ e.as[2].s # <<>> THEN TrimSet(x.s, BytesOf(e.as[2].s))
+                                                    ELSE TrimSet(x.s, SpaceSet)]
+                          [] e.f = "uppercase" -> [ok |-> TRUE, known |-> IsAscii(x.s), s |-> Upper(x.s)]
+                          [] e.f = "url_decode" -> (LET u == UrlDec(x.s, 1, <<>>) IN [ok |-> u.ok, known |-> TRUE, s |-> u.s])
+                          [] e.f = "replace" -> (LET q == RegexLookup(e.as[2].s, x.s, e.as[3].s) IN
+                                                 IF ~q.known THEN [ok |-> TRUE, known |-> FALSE, s |-> <<>>]
+                                                 ELSE [ok |-> q.e.ok, known |-> TRUE, s |-> q.e.out])
+                      IN IF ~res.known THEN E(st, "unspec-engine")
+                         ELSE IF ~res.ok THEN E(st, "data-error")
+                         ELSE R([lg EXCEPT !.pt = PtSetField(@, Alias(kn.n), VStr(res.s))], VVoid))
+      [] e.f = "load_json" ->
+           (LET r == Eval(e.as[1], st) IN
+            IF ~r.ok THEN r
+            ELSE IF r.v.t # "str" THEN E(r.st, "operand-type")
+            ELSE LET q == JsonLookup(r.v.s) IN
+                 IF ~q.known THEN E(r.st, "unspec-engine")
+                 ELSE IF ~q.e.ok THEN E(r.st, "data-error")
+                 ELSE LET a == FromDeep(q.e.d, r.st) IN R(a.st, a.v))
+      [] e.f \in {"strfmt", "printf"} ->
+           (LET first == IF e.f = "strfmt" THEN 3 ELSE 2
+                RECURSIVE Args(_, _, _)
+                \* strfmt ignores argument errors (the value reads as nil); printf propagates them
+                Args(i, s0, acc) == IF i > Len(e.as) THEN [st |-> s0, ok |-> TRUE, vs |-> acc, cls |-> ""]
+                                    ELSE LET r == Eval(e.as[i], s0) IN
+                                         IF ~r.ok THEN (IF e.f = "printf" THEN [st |-> r.st, ok |-> FALSE, vs |-> acc, cls |-> r.cls]
+                                                        ELSE Args(i + 1, r.st, Append(acc, VNil)))
+                                         ELSE Args(i + 1, r.st, Append(acc, r.v))
+            IN IF e.f = "strfmt"
+                 THEN (LET a == Args(first, st, <<>>)
+                           f == Sprintf(e.as[2].s, 1, a.vs, 1, <<>>) IN
+                       IF ~f.ok \/ \E j \in 1..Len(a.vs) : a.vs[j].t = "ref" THEN E(a.st, "unspec-format")
+                       ELSE R([a.st EXCEPT !.pt = PtSetField(@, Alias(KeyNameOf(e.as[1]).n), VStr(f.s)),
+                                           !.log = Append(@, [ev |-> "call", k |-> "strfmt"])], VVoid))
+                 ELSE (LET fr == Eval(e.as[1], st) IN          \* the format is evaluated as an expression; a non-string prints nothing
+                       IF ~fr.ok \/ fr.v.t # "str" \/ fr.v.s = <<>> THEN R(IF fr.ok THEN fr.st ELSE st, VVoid)
+                       ELSE LET a == Args(first, fr.st, <<>>) IN
+                            IF ~a.ok THEN E(a.st, a.cls)
+                            ELSE LET f == Sprintf(fr.v.s, 1, a.vs, 1, <<>>) IN
+                                 IF ~f.ok \/ \E j \in 1..Len(a.vs) : a.vs[j].t = "ref" THEN E(a.st, "unspec-format")
+                                 ELSE R([a.st EXCEPT !.log = Append(@, [ev |-> "printf", s |-> f.s])], VVoid)))
       [] OTHER -> E(st, "unknown-function")
 =============================================================================
